@@ -1246,6 +1246,66 @@ def rule_f14(F):
     return r
 
 
+def rule_f15(F):
+    """The generated clone / drop / eq functions find each component by re-walking the layout: one `LayoutBuilder::add` per field, in
+    order.  The walk must see EVERY field that has a layout - also those that need no clone / drop / comparison - because each add
+    moves the offset of all later fields.  So inside a component loop nothing gets from one field to the next without the add, except
+    for a field that has no layout at all (`layout_of` gave None: uninhabited).  (`if !needs_drop(ty) { continue }` BEFORE the add
+    makes `Tagged(u64, Tracker)` drop its Tracker at the offset of the u64.)"""
+    r = RuleResult("C03.F15", "generated clone/drop/eq bodies: every field with a layout is added to the layout walk before the next field (no skip before the add)", floor=5)
+    bodies = [b for b in F.bodies_in(["src/lir/lower/drops.rs", "src/lir/lower/clones.rs", "src/lir/lower/eq.rs"]) if b.mir and "{closure" not in b.path]
+    for b in bodies:
+        adds = [(bi, t) for bi, t in mir.calls(b) if hir.last(mir.callee_def(t) or "") == "add" and "LayoutBuilder" in (mir.callee(t) or mir.callee_def(t) or "")]
+        if not adds:
+            continue
+        defs = mir.Defs(b)
+        merged = {}
+        for h, nodes in mir.natural_loops(b):
+            merged.setdefault(h, set()).update(nodes)
+        gs = mir.gates(b, defs)
+        # edges taken when a field has no layout: the bad side of a gate on a layout_of result
+        legit = set()
+        for g in gs:
+            if any(hir.last(c[1] or "") == "layout_of" or hir.last(c[2] or "") == "layout_of" for c in g["chain"]):
+                for tb in g["bad"]:
+                    legit.add((g["bb"], tb))
+        for bi, t in adds:
+            inner = [(h, nodes) for h, nodes in merged.items() if bi in nodes]
+            if not inner:
+                continue
+            h, nodes = min(inner, key=lambda x: len(x[1]))
+            nxt = [x for x in nodes if b.blocks[x]["term"]["k"] == "call" and hir.last(mir.callee_def(b.blocks[x]["term"]) or "") == "next"
+                   and not any(x in n2 and n2 < nodes for _, n2 in merged.items())]
+            dest = (t.get("dest") or [None])[0]
+            used = dest is not None and (any(dest in mir.rv_locals(st["rv"]) for blk in b.blocks for st in blk["stmts"] if st["k"] == "assign")
+                                         or any(mir.is_place_op(a) and a[1] and a[1][0] == dest for _, tt in mir.calls(b) for a in tt.get("args") or []))
+            if not nxt or not used:
+                continue
+            add_blocks = {x for x, _ in adds if x in nodes}
+            # walk from the iterator step to the loop header without passing an add
+            seen, work = set(), [y for x in nxt for y in mir.succs(b.blocks[x])]
+            reached = False
+            while work:
+                x = work.pop()
+                if x in seen or x not in nodes:
+                    continue
+                seen.add(x)
+                if x in add_blocks:
+                    continue
+                for y in mir.succs(b.blocks[x]):
+                    if (x, y) in legit:
+                        continue
+                    if y == h:
+                        reached = True
+                    work.append(y)
+            r.inst("%s: walk step at line %s" % (hir.last(b.path), t.get("line")), {"fn": b.path, "skips_possible_before_add": reached})
+            if reached:
+                r.bad(b.path, "field skipped before it is added to the layout walk", relfile(b.file), t.get("line") or b.line,
+                      "%s can go from one field to the next without LayoutBuilder::add (other than for a field without a layout): the offsets of all later fields of the "
+                      "value are then computed as if the skipped field did not exist - the generated function clones / drops / compares them at the wrong address" % hir.last(b.path))
+    return r
+
+
 def rules(ctx):
     F = ctx["F"]
-    return [rule_f1(F), rule_f2(F), rule_f3(F), rule_f4(F), rule_f5(F), rule_f6(F), rule_f7(F), rule_f8(F), rule_f9(F), rule_f10(F), rule_f11(F), rule_f12(F), rule_f13(F), rule_f14(F)]
+    return [rule_f1(F), rule_f2(F), rule_f3(F), rule_f4(F), rule_f5(F), rule_f6(F), rule_f7(F), rule_f8(F), rule_f9(F), rule_f10(F), rule_f11(F), rule_f12(F), rule_f13(F), rule_f14(F), rule_f15(F)]
